@@ -105,6 +105,31 @@ CHECKS['C05']['kani'] = [_k('is_error_iff_byte_ge_0x80', 'all 256 code bytes thr
 CHECKS['C05']['trusted'].append(T_KANI)
 CHECKS['C05']['not_covered'] = ['dotted c.dd text form (Display / set_code / get_code): fmt machinery too expensive for CBMC (435 s without verdict, DESIGN.md Appendix B) and str parsing is outside Verus']
 
+T_CLOS = 'closure literals passed to Option/Result combinators carry spliced contracts (R18), bodies verbatim; assumed std specs: Result::map_or, String::into_bytes (opaque utf8_of), VecDeque::front'
+T_DEF = 'R27: #[derive(Default)] on Packet expanded to the impl rustc generates (each field Default::default())'
+T_UINT = 'option_from_uint/option_to_uint are not read by Verus: their contracts (shortest big-endian form / big-endian value or error by length) are proved on the real functions for all values of all four widths by the Kani harnesses uint_encode_* / uint_decode_* and assumed in the Verus units (modular composition)'
+CHECKS['C07'] = {
+    'level': 'proof',
+    'units': ['resp'],
+    'kani': [],
+    'technique': 'contract-based deductive verification (Verus) of CoapResponse::new, CoapRequest::from_packet and apply_from_error with whole-message postconditions',
+    'level_text': 'Unbounded proof over all request packets (any header byte, code, message id, token 0-8 bytes, options, payload): a response is prepared iff the type bits are CON/NON; it has version 1, ACK for CON / NON for NON, the request message id and token (and TKL), code 2.05, no options, no payload. apply_from_error returns true iff there is a response and the error has a code, and then changes only code, payload and the Content-Format option; otherwise nothing changes.',
+    'level_note': 'Trusted: Verus/Z3/vstd; R1; R27; closure contracts (R18); String::into_bytes is opaque (payload == utf8_of(message)); uint conversion contracts proved by Kani (C06).',
+    'trusted': [T_VERUS, T_R1, T_DEF, T_CLOS, T_UINT, T_EQ if 'T_EQ' in dir() else 'derived PartialEq structural'],
+    'explanation': 'unit resp',
+}
+CHECKS['C19'] = {
+    'level': 'proof',
+    'units': ['resp'],
+    'kani': [],
+    'technique': 'contract-based deductive verification (Verus) of the method/status/content-format/observe accessors against the raw message view',
+    'level_text': 'Proof for the claimed accessors, for all packets (whatever was stored before): get/set_method and get/set_status agree with the code field for every variant and every code byte (unnamed ones read as UnKnown); set_content_format replaces the Content-Format option by the minimal uint of the registry id and get_content_format returns the registry entry of the first value (None if absent, longer than 2 bytes or unassigned); set_observe_flag / get_observe_flag likewise through the Observe option (values longer than 4 bytes or other than 0/1 give Err).',
+    'level_note': 'Trusted: as C07. NOT covered (reported in evidence): URI-path string accessors (split/join on str) and the coap-message 0.2/0.3 trait views (external crates cannot be linked into single-file Verus; packet-level Kani harnesses too expensive).',
+    'trusted': [T_VERUS, T_R1, T_DEF, T_CLOS, T_UINT],
+    'not_covered': ['set_path/get_path/get_path_as_vec (str split/join)', 'impl_coap_message.rs / impl_coap_message_0_3.rs trait views'],
+    'explanation': 'unit resp (includes the accessor layer of unit acc)',
+}
+
 HOOK_COMMITS = ['7321ffc']
 
 NOT_APPLICABLE = [
